@@ -12,7 +12,7 @@ from ..catalog import make_data, pool_specs
 from ..vlib import il
 from . import _pool
 
-LEAN_TARGETS = ["SkaModel.Props.C08"]
+LEAN_TARGETS = ["SkaModel.Props.C08", "SkaModel.Props.C08us"]
 LEVEL = "proof"
 RULE = (
     "cases: (a) _transform_candidates of the real base class vs the model on random labelings and index lists with duplicates / arbitrary order; "
@@ -188,7 +188,73 @@ def relations(ctx, per_spec):
                     ctx.count("permutation_compared")
 
 
+def us_cases(ctx, n_cases):
+    """UncertaintySampling (least_confident / margin_sampling, no cost matrix) against `Core/Uncertainty.lean`: the probability
+    rows the strategy hands to `uncertainty_scores` are captured from the real call; the model computes the scores, scatters them
+    through the mapping and multiplies by `utility_weight`; compared bit-exactly with the first utilities row of the real query."""
+    import skactiveml.pool._uncertainty_sampling as US
+    from skactiveml.classifier import ParzenWindowClassifier
+    from skactiveml.pool import UncertaintySampling
+
+    rng = ctx.rng
+    lines, expect = [], []
+    for _ in range(n_cases):
+        nrs = np.random.RandomState(rng.randrange(2**31 - 1))
+        n, k = rng.randint(3, 10), rng.choice([2, 3, 4])
+        X = nrs.randint(-4, 5, size=(n, 2)).astype(float)
+        y = np.full(n, np.nan)
+        lab = rng.sample(range(n), rng.randint(1, n - 1))
+        for i in lab:
+            y[i] = rng.randrange(k)
+        unl = [i for i in range(n) if i not in lab]
+        mode = rng.choice(["none", "idx", "rows"])
+        method = rng.choice(["least_confident", "margin_sampling"])
+        if mode == "none":
+            cand, mapping = None, unl
+        elif mode == "idx":
+            mapping = sorted(rng.sample(unl, rng.randint(1, len(unl))))
+            cand = np.array(mapping)
+        else:
+            cand = nrs.randint(-4, 5, size=(rng.randint(1, 5), 2)).astype(float)
+            mapping = None
+        nw = n if mapping is not None else len(cand)
+        w = None if rng.random() < 0.5 else np.array([rng.choice([0.5, 1.0, 2.0, 0.25]) for _ in range(nw)])
+        seen = []
+        orig = US.uncertainty_scores
+
+        def spy(probas, *a, **kw):
+            seen.append(np.array(probas, dtype=float, copy=True))
+            return orig(probas, *a, **kw)
+
+        US.uncertainty_scores = spy
+        try:
+            clf = ParzenWindowClassifier(classes=list(range(k)), metric_dict={"gamma": 0.125}, random_state=0)
+            qs = UncertaintySampling(method=method, random_state=rng.randrange(10**6))
+            with warnings.catch_warnings(), np.errstate(all="ignore"):
+                warnings.simplefilter("ignore")
+                _, U = qs.query(X, y, clf=clf, candidates=cand, utility_weight=w, batch_size=1, return_utilities=True)
+        finally:
+            US.uncertainty_scores = orig
+        if len(seen) != 1:
+            ctx.disagree("UncertaintySampling calls uncertainty_scores exactly once", dict(method=method, mode=mode), "1 call", f"{len(seen)} calls")
+            continue
+        P = seen[0]
+        ww = np.ones(nw) if w is None else w
+        line = (f"us_util {0 if method == 'least_confident' else 1} {n} {1 if mapping is not None else 0} "
+                f"{vlib.il(mapping or [])} {P.shape[0]} {P.shape[1]} " + " ".join(vlib.f2bits(v) for v in P.ravel()) + " " + vlib.fl(ww))
+        lines.append(" ".join(line.split()))
+        case = dict(fn="UncertaintySampling", method=method, mode=mode, n=n, mapping=mapping, weights=None if w is None else w.tolist())
+        expect.append((" ".join(vlib.f2bits(v) for v in np.asarray(U, dtype=float)[0]), case))
+        ctx.case(("us", method, mode, n, repr(mapping), repr(P.tolist())), P.shape[0] >= 2, sample=dict(case, utilities=np.asarray(U)[0].tolist()[:6]))
+        ctx.count(f"us_{method}_{mode}")
+    outs = vlib.run_driver(lines)
+    for line, out, (impl, case) in zip(lines, outs, expect):
+        if out.split() != impl.split():
+            ctx.disagree("SkaModel.Core.Uncertainty vs UncertaintySampling (scores, scatter, utility_weight)", dict(case, line=line[:300]), out[:400], impl[:400])
+
+
 def correspond(ctx):
+    us_cases(ctx, 150 if not ctx.thorough else 1500)
     candmap_cases(ctx, 400 if not ctx.thorough else 4000)
     relations(ctx, 2 if not ctx.thorough else 12)
 
